@@ -52,9 +52,9 @@ def run(ctx):
     import trxd_drv as D
 
     out = os.path.join(ctx.scratch, "cases.json")
-    cfg = "ValidGen.cfg"      # all pairs of deviations in both tiers
-    r = tlc.run("ValidGen.tla", cfg, workers=1, env=dict(OUT_FILE=out), timeout=1200, scratch=ctx.scratch)
-    ctx.require_ok("GEN ValidGen (boundary product, pairs)", r)
+    cfg = ctx.pick("ValidGen.cfg", "ValidGen3.cfg")      # all pairs; thorough: also all triples over the boundary sets
+    r = tlc.run("ValidGen.tla", cfg, workers=1, env=dict(OUT_FILE=out), timeout=3600, scratch=ctx.scratch)
+    ctx.require_ok("GEN ValidGen (boundary product: pairs; thorough: + triples)", r)
     cases = json.load(open(out))
     ctx.log("TLC generated %d cases (%d valid)" % (len(cases), sum(1 for c in cases if c["valid"])))
     if len(cases) < 5000 or not any(c["valid"] for c in cases):
